@@ -694,3 +694,126 @@ class M_get_descendants(MgrContract):
                     z3.And(j >= 0, j < ctx.i, m.G.is_switch(cur.at(j)), NOTIF(cur.at(j), x)), member(x)))),
             ]
         return [LoopSpec(text='range(len(descendants))', havoc={'descendants': 'content'}, inv=inv)]
+
+
+# --------------------------------------------------------------------------------------
+# sub-dag construction
+# --------------------------------------------------------------------------------------
+@contract
+class G_get_connected_subgraph(Contract):
+    path = GRAPH_PY
+    name = 'get_connected_subgraph'
+    returns = 'val'
+    inline_at_calls = True      # the result carries live filter closures: executed, not abstracted, at call sites
+    props = ('C01', 'C09', 'C10', 'C11')
+    doc = ('a single-node graph is returned as is; otherwise a view whose node set is {x | source ->* x ->* dest} in '
+           'the given graph, carrying exactly the given flags and end points; the given graph is not modified')
+
+    def setup(self, it):
+        st = it.st
+        g = GraphOps.fresh_base(it, 'G')
+        return None, CallArgs([g, SymV(st.fresh_val('source')), SymV(st.fresh_val('dest'))],
+                              dict(is_recurrent=SymB(st.fresh_bool('rec')), is_oneof=SymB(st.fresh_bool('oneof')),
+                                   is_nested_oneof=SymB(st.fresh_bool('nested'))))
+
+    def raises(self, it, pre, a):
+        ops = GraphOps(it)
+        return [ExcCase('source-not-in-graph', 'KeyError', may=True)]
+
+    def ensures(self, it, pre, post, a, res):
+        st = it.st
+        ops = GraphOps(it)
+        out = []
+        if isinstance(res, Ref) and res.id == a.dag.id:
+            out.append(('same-object-only-for-a-single-node-graph', True))
+            return out
+        ok = isinstance(res, Ref) and post.getf(res, 'g_kind') == 'sub'
+        out.append(('result-is-a-subgraph-view', ok))
+        if not ok:
+            return out
+        rec = st.ghost.get('paths', [])
+        out.append(('node-set-from-one-path-query', len(rec) == 1))
+        if len(rec) != 1:
+            return out
+        r = rec[0]
+        x = z3.Const('cx', PyV)
+        ns = post.getf(res, 'g_nodes')
+        out += [
+            ('paths-searched-in-the-given-graph-between-the-given-end-points', (r['g'] is a.dag or r['g'].id == a.dag.id)
+             and z3.simplify(z3.And(r['s'] == T(a.source, st), r['d'] == T(a.dest, st)))),
+            ('node-set-is-the-nodes-between-source-and-dest', FA([x], ns.contains(x) == z3.And(
+                ops.node_in(a.dag, x), r['rs'](x), r['rd'](x)), patterns=[ns.contains(x)])),
+            ('view-of-the-same-underlying-graph', post.getf(res, 'g_base').id == ops.root(a.dag).id),
+            ('flags', z3.And(B(post.getf(res, 'is_recurrent')) == B(a.is_recurrent),
+                             B(post.getf(res, 'is_oneof')) == B(a.is_oneof),
+                             B(post.getf(res, 'is_nested_oneof')) == B(a.is_nested_oneof))),
+            ('end-points', z3.And(T(post.getf(res, 'source'), st) == T(a.source, st),
+                                  T(post.getf(res, 'dest'), st) == T(a.dest, st))),
+        ]
+        return out
+
+
+@contract
+class M_get_reduced_dag(MgrContract):
+    name = 'DAGRunConcurrentManager._get_reduced_dag'
+    returns = 'val'
+    inline_at_calls = True
+    props = ('C01', 'C09', 'C10', 'C07', 'C08', 'C11')
+    doc = ('the nodes between source and dest in the graph without case edges and without still-untried one-of candidates; '
+           'clears is_oneof_child of dest when building a one-of scope (on the run\'s own graph) and changes nothing else')
+
+    def setup(self, it):
+        st = it.st
+        m = new_manager(it)
+        return m, CallArgs([SymV(st.fresh_val('source')), SymV(st.fresh_val('dest'))],
+                           dict(is_recurrent=SymB(st.fresh_bool('rec')), is_oneof=SymB(st.fresh_bool('oneof')),
+                                is_nested_oneof=SymB(st.fresh_bool('nested'))))
+
+    def requires(self, it, pre, a):
+        m = self.mv(pre, a)
+        return [('end-points-in-graph', z3.And(m.G.node(T(a.source, it.st)), m.G.node(T(a.dest, it.st))))]
+
+    def raises(self, it, pre, a):
+        return [ExcCase('source-filtered-out', 'KeyError', may=True)]
+
+    def modifies(self, it, pre, a):
+        return [(self.mv(pre, a).G.g, 'na:is_oneof_child')]
+
+    def ensures(self, it, pre, post, a, res):
+        st = it.st
+        m0, m1 = self.mv(pre, a), self.mv(post, a)
+        dest = T(a.dest, st)
+        child0 = pre.getf(m0.G.g, 'na:is_oneof_child').a
+        child1 = post.getf(m1.G.g, 'na:is_oneof_child').a
+        out = [('only-the-tried-candidate-is-unmarked|C10', child1 == z3.If(B(a.is_oneof), z3.Store(child0, dest, FALSE), child0))]
+        if not isinstance(res, Ref):
+            return out + [('result-is-a-graph', False)]
+        kind = post.getf(res, 'g_kind')
+        ops = GraphOps(it)
+        if kind == 'view':
+            # single-node case: the filtered view itself
+            out.append(('single-node-view-filters', post.getf(res, 'g_fedge') is not None and post.getf(res, 'g_fnode') is not None))
+            return out
+        ns = post.getf(res, 'g_nodes')
+        x, u, v = z3.Consts('rx ru rv', PyV)
+        rec = st.ghost.get('paths', [])
+        out.append(('node-set-from-one-path-query', len(rec) == 1))
+        if len(rec) != 1:
+            return out
+        r = rec[0]
+        out += [
+            ('between-the-given-end-points', z3.simplify(z3.And(r['s'] == T(a.source, st), r['d'] == dest))),
+            ('untried-one-of-candidates-are-excluded|C10', FA([x], z3.Implies(ns.contains(x), z3.And(
+                m1.G.node(x), z3.Not(m1.G.is_child(x)))), patterns=[ns.contains(x)])),
+            ('reachability-ignores-case-edges|C09', FA([u, v], ops.edge_in(r['g'], u, v) == z3.And(
+                m1.G.edge(u, v), z3.Not(truthy_term(m1.G.case(u, v))),
+                z3.Not(m1.G.is_child(u)), z3.Not(m1.G.is_child(v))))),
+            ('node-set-is-the-nodes-between-source-and-dest', FA([x], ns.contains(x) == z3.And(
+                ops.node_in(r['g'], x), r['rs'](x), r['rd'](x)), patterns=[ns.contains(x)])),
+            ('flags', z3.And(B(post.getf(res, 'is_recurrent')) == B(a.is_recurrent),
+                             B(post.getf(res, 'is_oneof')) == B(a.is_oneof),
+                             B(post.getf(res, 'is_nested_oneof')) == B(a.is_nested_oneof))),
+            ('end-points', z3.And(T(post.getf(res, 'source'), st) == T(a.source, st), T(post.getf(res, 'dest'), st) == dest)),
+            ('view-of-the-run-graph', post.getf(res, 'g_base').id == m1.G.g.id),
+        ]
+        return out
